@@ -19,7 +19,7 @@ Qed.
 Lemma sp_find_app_r : forall n a b, zin n (names_of a) = false ->
   sp_find n (a ++ b) = match sp_find n b with Some i => Some (length a + i)%nat | None => None end.
 Proof.
-  intros n a b. induction a as [|[m k] a IH]; intro H; cbn [app sp_find length names_of map zin] in *.
+  intros n a b. induction a as [|[m k] a IH]; intro H; cbn [app sp_find length names_of map zin fst] in *.
   - destruct (sp_find n b); reflexivity.
   - apply orb_false_iff in H. destruct H as [H1 H2]. rewrite H1.
     fold (names_of a) in H2. rewrite (IH H2). destruct (sp_find n b); reflexivity.
@@ -34,7 +34,7 @@ Qed.
 
 Lemma sp_find_none_notin : forall n l, sp_find n l = None -> zin n (names_of l) = false.
 Proof.
-  intros n l. induction l as [|[m k] l IH]; intro H; cbn [sp_find names_of map zin] in *; [reflexivity|].
+  intros n l. induction l as [|[m k] l IH]; intro H; cbn [sp_find names_of map zin fst] in *; [reflexivity|].
   destruct (m =? n); [discriminate|]. destruct (sp_find n l); [discriminate|]. cbn [orb]. apply IH. reflexivity.
 Qed.
 
